@@ -1,6 +1,6 @@
 module github.com/basecamp/kamal-proxy/verif
 
-go 1.26
+go 1.24.2
 
 require (
 	github.com/anishathalye/porcupine v1.3.0
